@@ -37,7 +37,9 @@ pub const LEAF_FNS: [&str; 5] = ["t", "f", "n", "v", "boom"];
 /// leaf kind 9: a call of the cacheable failing function
 /// leaf kinds: 0..=4 calls of the logging functions above; 5 literal `true`; 6 literal `false`; 7 `i1 / i0` (an error
 /// that is not a call); 8 literal `none` — a fast path keyed on the *syntactic form* of an operand shows only on these
-pub const N_LEAF: usize = 10;
+/// 10 a reference that does not resolve, 11 a reference that does (a list), 12 a symbol that does not resolve: operands that
+/// are bare names — what a borrowed / in-place fast path keys on
+pub const N_LEAF: usize = 13;
 /// `callx` = a call of a function that is not registered (its argument must still be evaluated first)
 /// `callc` = a call of the cacheable `memo`; `dup` = the same sub-expression written twice (`[e, e]`: identical text,
 /// identical arguments — every call in it must still be evaluated once per occurrence)
@@ -54,6 +56,9 @@ pub fn build_shape(s: &Shape, site: &mut i128) -> Expr {
             6 => lit(Value::Bool(false)),
             7 => mk_bin("div", lit(Value::Int(1)), lit(Value::Int(0))),
             8 => lit(Value::None),
+            10 => reff("nope"),
+            11 => reff("x"),
+            12 => Expr::Symbol("nosym".into()),
             9 => {
                 *site += 1;
                 call("cboom", lit(Value::Int(*site)))
@@ -132,7 +137,7 @@ pub fn lazy_cases(rng: &mut Rng, thorough: bool) -> Vec<RsCase> {
             for (cop, car) in LAZY_OPS {
                 for ct in tuples(N_LEAF, car) {
                     // restrict the inner tuple to the boolean-ish kinds to bound the count unless thorough
-                    if !thorough && ct.iter().any(|k| *k == 3 || *k == 8 || *k == 9) {
+                    if !thorough && ct.iter().any(|k| *k == 3 || *k == 8 || *k == 9 || *k == 11 || *k == 12) {
                         continue;
                     }
                     for others in tuples(5, ar - 1) {
@@ -199,7 +204,7 @@ pub fn lazy_cases(rng: &mut Rng, thorough: bool) -> Vec<RsCase> {
                 Shape::Node(op, _) => op.to_string(),
                 _ => "leaf".into(),
             };
-            RsCase { tag, rules: vec![e], facts: Value::None, env: env.clone(), evals: 1 }
+            RsCase { tag, rules: vec![e], facts: map(&[("x", Value::Vec(vec![Value::Bool(true), Value::Int(1)]))]), env: env.clone(), evals: 1 }
         })
         .collect()
 }
